@@ -356,17 +356,16 @@ Proof.
   - lia.
 Qed.
 
-Theorem wcomp_codec_ok dbg : codec_ok (wcz dbg) wcomp.
+(* what the snappy path of the model does on the witness compressor's output: the largest
+   allocation request is the decompressed length *)
+Lemma wcomp_run x : Z.of_nat (length x) <= 1073741824 ->
+  xerial_run (wcomp 2 x) = (Ok x, Z.of_nat (length x)).
 Proof.
-  split; [intros x; reflexivity|].
-  intros x Hx. unfold alloc_limit in *. change (2 ^ 30) with 1073741824 in *. unfold blen in Hx.
-  unfold wcomp. change (2 =? 2) with true. cbv iota.
-  unfold xerial_read_to_end, xerial_max_alloc.
+  intros Hx. unfold wcomp. change (2 =? 2) with true. cbv iota.
   assert (Hu : Z.of_nat (length x) <= u32_max) by (unfold u32_max; lia).
   rewrite (xerial_single_chunk (snappy_lit_compress x) x).
-  - cbn [fst snd]. split; [reflexivity|].
-    unfold uncompress_alloc. rewrite lit_decompress_len by exact Hu.
-    cbn [length]. destruct (Z.of_nat (length x) >? 0); lia.
+  - f_equal. unfold uncompress_alloc. rewrite lit_decompress_len by exact Hu.
+    cbn [length]. destruct (Z.of_nat (length x) >? 0) eqn:E0; lia.
   - unfold snappy_lit_compress. rewrite app_length.
     pose proof (SnappyFacts.varint_enc_nonempty 4 (Z.of_nat (length x))) as Hne.
     destruct (varint_enc 5 (Z.of_nat (length x))); [congruence|cbn [length]; lia].
@@ -375,6 +374,30 @@ Proof.
     pose proof (lit_chunks_length (length x) x) as HL.
     unfold i32_max. lia.
   - rewrite SnappyFacts.uncompress_to_lit by exact Hu. reflexivity.
+Qed.
+
+Theorem wcomp_codec_ok dbg : codec_ok (wcz dbg) wcomp.
+Proof.
+  split; [intros x; reflexivity|].
+  intros x Hx. unfold alloc_limit in *. change (2 ^ 30) with 1073741824 in *. unfold blen in Hx.
+  unfold xerial_read_to_end, xerial_max_alloc. rewrite wcomp_run by lia. cbn [fst snd].
+  split; [reflexivity|lia].
+Qed.
+
+(* Why the snappy clause of codec_ok carries `blen x < alloc_limit` (and wf_entry the matching
+   bound on snappy batches): without it the clause fails for this compressor, and for the same
+   reason (the request of the last non-empty chunk is the total decompressed length) for any
+   other one, so the unrestricted definition would make every theorem vacuous. *)
+Lemma codec_ok_needs_bound :
+  ~ (forall x, xerial_read_to_end (wcomp 2 x) = Ok x /\ xerial_max_alloc (wcomp 2 x) < alloc_limit).
+Proof.
+  intros H.
+  remember (Z.to_nat 1073741824) as n eqn:En.
+  assert (Hn : Z.of_nat n = 1073741824) by (subst n; apply Z2Nat.id; lia). clear En.
+  destruct (H (repeat x00 n)) as [_ H2].
+  unfold xerial_max_alloc in H2. rewrite wcomp_run in H2 by (rewrite repeat_length; lia).
+  cbn [snd] in H2. rewrite repeat_length in H2.
+  unfold alloc_limit in H2. change (2 ^ 30) with 1073741824 in H2. lia.
 Qed.
 
 (* ====================================================================== *)
@@ -522,7 +545,7 @@ Theorem C02_full_refuted :
 Proof.
   exists (wcz true), wcomp, es_bad, 0.
   split; [apply wcomp_codec_ok|]. split; [wf_tac|].
-  split; [eapply Known_late; right; left; reflexivity|].
+  split; [eapply Known_late; left; reflexivity|].
   split; [vm_compute; intros H; discriminate H|].
   split; [vm_compute; reflexivity|].
   split; [vm_compute; reflexivity|].
@@ -582,5 +605,6 @@ Print Assumptions C02_nonempty_wrapper.
 Print Assumptions C02_safe_always.
 Print Assumptions C02_in_order_and_bounds.
 Print Assumptions wcomp_codec_ok.
+Print Assumptions codec_ok_needs_bound.
 Print Assumptions C02_full_refuted.
 Print Assumptions C02_nonempty_refuted.
